@@ -223,7 +223,7 @@ fn intersect_format1_feature_map<const RECORD_INTERSECTION: bool>(
 
     let max_entry_index = map.max_entry_index();
     let max_glyph_map_entry_index = map.max_glyph_map_entry_index();
-    let field_width = if max_entry_index < 256 { 1u16 } else { 2u16 };
+    let field_width = if max_entry_index < 256 { 1usize } else { 2usize };
 
     // We need to check up front there is enough data for all of the listed entry records, this
     // isn't checked by the read_fonts generated code. Specification requires the operation to fail
@@ -238,7 +238,9 @@ fn intersect_format1_feature_map<const RECORD_INTERSECTION: bool>(
     };
     let mut record_it = feature_map.feature_records().iter().peekable();
 
-    let mut cumulative_entry_map_count = 0;
+    // Counts come from the font: a single count is at most u16::MAX but their sum and the byte
+    // offsets derived from it are not, so track them as usize.
+    let mut cumulative_entry_map_count = 0usize;
     let mut largest_tag: Option<Tag> = None;
     loop {
         let record = if let Some(tag_it) = &mut maybe_tag_it {
@@ -248,7 +250,7 @@ fn intersect_format1_feature_map<const RECORD_INTERSECTION: bool>(
             let record = record?;
 
             if *tag > record.feature_tag() {
-                cumulative_entry_map_count += record.entry_map_count().get();
+                cumulative_entry_map_count += record.entry_map_count().get() as usize;
                 record_it.next();
                 continue;
             }
@@ -282,7 +284,7 @@ fn intersect_format1_feature_map<const RECORD_INTERSECTION: bool>(
             if let Some(largest_tag) = largest_tag {
                 if record.feature_tag() <= largest_tag {
                     // Out of order or duplicate tag, skip this record.
-                    cumulative_entry_map_count += record.entry_map_count().get();
+                    cumulative_entry_map_count += record.entry_map_count().get() as usize;
                     continue;
                 }
             }
@@ -294,22 +296,29 @@ fn intersect_format1_feature_map<const RECORD_INTERSECTION: bool>(
         let entry_count = record.entry_map_count().get();
 
         for i in 0..entry_count {
-            let index = i + cumulative_entry_map_count;
-            let byte_index = (index * field_width * 2) as usize;
-            let data = FontData::new(&feature_map.entry_map_data()[byte_index..]);
-            let mapped_entry_index = record.first_new_entry_index().get() + i;
+            let index = i as usize + cumulative_entry_map_count;
+            let byte_index = index * field_width * 2;
+            let data = feature_map
+                .entry_map_data()
+                .get(byte_index..)
+                .ok_or(ReadError::OutOfBounds)?;
+            let data = FontData::new(data);
+            // May exceed u16::MAX, in which case it's invalid (greater than max_entry_index).
+            let mapped_entry_index = record.first_new_entry_index().get() as u32 + i as u32;
             let entry_record = EntryMapRecord::read(data, max_entry_index)?;
             let first = entry_record.first_entry_index().get();
             let last = entry_record.last_entry_index().get();
             if first > last
                 || first > max_glyph_map_entry_index
                 || last > max_glyph_map_entry_index
-                || mapped_entry_index <= max_glyph_map_entry_index
-                || mapped_entry_index > max_entry_index
+                || mapped_entry_index <= max_glyph_map_entry_index as u32
+                || mapped_entry_index > max_entry_index as u32
             {
                 // Invalid, continue on
                 continue;
             }
+            // In range of max_entry_index so this can't truncate.
+            let mapped_entry_index = mapped_entry_index as u16;
 
             // If any entries exist which intersect the range of this record add all of their subset defs
             // to the new entry.
@@ -321,7 +330,7 @@ fn intersect_format1_feature_map<const RECORD_INTERSECTION: bool>(
             );
         }
 
-        cumulative_entry_map_count += entry_count;
+        cumulative_entry_map_count += entry_count as usize;
     }
 
     Ok(())
